@@ -6,6 +6,7 @@
      val2 <fn2> <type> a:b a:b ...
      valm <fn2> <typeN> <typeK> a:b ...               operands of two different types (div_ceil / round_up)
      prange <start> b0 b1 ...                         byte-range popcount (start offset is for the harness only)
+     aggk <op> ...   as agg, with the additional op K,i,c,num/den (x_i = Aggregate(c, v, 0, v, v)); model output only
      agg | aggf | aggi | aggz  <op> ...   ops: A,i,num/den  P,i,j,k  PA,i,j  R,i   (3 variables of Aggregate<double | float |
                                           int | size_t>; all are observed at the end)
    type names: u8 i8 u16 i16 u32 i32 u64 i64 and ull / ll (unsigned long long / long long = u64 / i64 in the model) *)
@@ -90,6 +91,7 @@ let agg_op tok =
   | ["P"; i; j; k] -> OPlus (n i, n j, n k)
   | ["PA"; i; j] -> OPlusAssign (n i, n j)
   | ["R"; i] -> OReset (n i)
+  | ["K"; i; c; v] -> OConst (n i, (match z_of_string c with Zpos p -> Npos p | _ -> N0), q_of_string v)
   | _ -> failwith ("bad agg op " ^ tok)
 
 let show_agg a =
@@ -135,6 +137,11 @@ let () =
           | _ -> failwith "bad pair") vs
       | "prange" :: _ :: bs ->
         Buffer.add_string b (show (eval_range (List.map z_of_string bs)))
+      | "aggk" :: toks ->
+        (* Aggregate<double> histories with constructed operands of huge counts: the model only (the list of values a
+           variable stands for is not materialised) *)
+        let s = run dbl_max (qneg dbl_max) (nat_of_int 3) (List.map agg_op toks) in
+        Buffer.add_string b (String.concat " | " (List.map show_agg s))
       | (("agg" | "aggf" | "aggi" | "aggz") as kind) :: toks ->
         let ops = List.map agg_op toks in
         let zq s = { qnum = z_of_string s; qden = XH } in
